@@ -53,6 +53,7 @@ class ParseType(IoContract):
     assumed = True
     params = {"type_name": "val"}
     result = "val"
+    selects = staticmethod(lambda self_cls, args, kwargs=None: True)
 
     def raises(self, c0, a):
         return {"TypeNameError": z3.Not(pvalid(to_val(a.type_name)))}
@@ -269,7 +270,7 @@ class AuxToProtobuf(IoContract):
     """what a table is saved as: its type name, and either the bytes it was loaded with (never read, type name
     unchanged) or the encoding of its current value under its current type name"""
     target = "auxdata.py::AuxData._to_protobuf"
-    props = PROPS + ("C02",)
+    props = PROPS + ("C02", "C01")
     params = {"self": "ref:AuxData"}
     modifies = dict(CELL_MOD, **{"pb.AuxData.type_name": NEW, "pb.AuxData.data": NEW})
     result = "pb:AuxData"
@@ -331,7 +332,7 @@ class AuxToProtobuf(IoContract):
 class AuxFromProtobuf(IoContract):
     """loading is lazy: the table holds the message's bytes and type name, nothing is decoded"""
     target = "auxdata.py::AuxData._from_protobuf"
-    props = PROPS + ("C02",)
+    props = PROPS + ("C02", "C01")
     params = {"aux_data": "pb:AuxData", "ir": "ref:IR"}
     modifies = {"_data": NEW, "_lazy_container": NEW, "raw_data": NEW, "type_name": NEW, "get_by_uuid": NEW,
                 "$alive": NEW, "$kind": NEW}
@@ -358,3 +359,75 @@ def register(reg):
     for c in (ParseType(), EncodeTree(), DecodeTree(), SerEncode(), SerDecode(), DataGet(), DataSet(), AuxToProtobuf(),
               AuxFromProtobuf()):
         reg.add(c)
+
+
+# ------------------------------------------------------------------------------------------- _parse_type (C15, wrapper only)
+from pyvc.iomodel import tok_items, tok_len       # noqa: E402
+from pyvc.core import VPair                        # noqa: E402
+
+sib_ok = z3.Function("siblings_ok", z3.ArraySort(Int, Val), Int, z3.BoolSort())      # token list parses as a sibling list
+sib_n = z3.Function("siblings_count", z3.ArraySort(Int, Val), Int, Int)
+sib_tree = z3.Function("siblings_tree", z3.ArraySort(Int, Val), Int, Int, Val)       # i-th tree of the sibling list
+TOKEN_RE = "[^<>,]+|<|>|,"
+
+
+class ParseSiblings(Contract):
+    """assumed (the recursive sibling-list parser is covered by the exhaustive bounded stand-in): parse(tokens, [])
+    returns (tuple of trees, remaining) or raises TypeNameError"""
+    target = "serialization.py::Serialization._parse_type/parse"
+    props = ()
+    assumed = True
+    params = {"tokens": "val", "tree": "val"}
+
+    def bind(self, eng, args, kwargs, st):
+        a = super().bind(eng, args, kwargs, st)
+        return a
+
+    def raises(self, c0, a):
+        return {"TypeNameError": z3.Not(sib_ok(a.tokens.t, a.tokens.x))}
+
+    def result_term(self, c0, a):
+        n = sib_n(a.tokens.t, a.tokens.x)
+        items = fresh("trees", z3.ArraySort(Int, Val))
+        self._items, self._n = items, n
+        return SV("tuple", x=[SV("list", items, x=n), SV("list", fresh("rem", z3.ArraySort(Int, Val)), x=z3.IntVal(0))])
+
+    def post(self, c0, c1, a, res):
+        i = fresh("i", Int)
+        return {"count": self._n >= 0,
+                "trees": z3.ForAll([i], z3.Select(self._items, i) == sib_tree(a.tokens.t, a.tokens.x, i))}
+
+
+class ParseTypeTop(IoContract):
+    """Serialization._parse_type, wrapper level: the name is tokenised with the documented token expression, the sibling
+    parser runs on all tokens, and the name is accepted iff that yields exactly one root; every rejection is a
+    TypeNameError (never the ValueError of the failed unpacking)"""
+    target = "serialization.py::Serialization._parse_type"
+    props = ("C15",)
+    params = {"type_name": "val"}
+    result = "val"
+    variant = "wrapper"
+
+    def selects(self, self_cls, args, kwargs=None):
+        return False        # call sites use the abstract ParseType contract above
+
+    def _t(self, a):
+        pat, text = VStr(z3.StringVal(TOKEN_RE)), to_val(a.type_name)
+        return tok_items(pat, text), tok_len(pat, text)
+
+    def raises(self, c0, a):
+        items, n = self._t(a)
+        return {"TypeNameError": z3.Or(z3.Not(sib_ok(items, n)), sib_n(items, n) != 1)}
+
+    def post(self, c0, c1, a, res):
+        items, n = self._t(a)
+        return {"the_single_root": to_val(res) == sib_tree(items, n, 0)}
+
+
+_reg_aux = register
+
+
+def register(reg):      # noqa: F811
+    _reg_aux(reg)
+    reg.add(ParseSiblings())
+    reg.add(ParseTypeTop())
